@@ -49,6 +49,7 @@ type OriginResp struct {
 	TrackFetch    bool  // count this answer in the performer's fetch log
 	CountOnly     bool  // …but not as in flight (uncacheable answers are outside the single-flight claim)
 	StallBody     bool  // the body never ends: Read blocks until the body is closed
+	Pend          bool  // the destination takes the request and never answers: Do returns when the request's context is done, with its error (as http.Transport does)
 	CancelAt      int   // > 0: after this many bytes Read blocks until the request's context is done (the client went away) and returns its error, as http.Transport does
 }
 
@@ -152,6 +153,8 @@ type Performer struct {
 	Fetches     int
 	// Blocked receives a token when a CancelAt body has handed out its first part and waits
 	Blocked chan struct{}
+	// Pending receives a token when a Pend answer has taken the request and waits for the client to go away
+	Pending chan struct{}
 }
 
 type trackedBody struct {
@@ -177,7 +180,7 @@ func (t *trackedBody) Read(b []byte) (int, error) {
 func (t *trackedBody) Close() error { t.finish(); return t.ReadCloser.Close() }
 
 func NewPerformer() *Performer {
-	return &Performer{failed: map[string]int{}, Limit: 300, Blocked: make(chan struct{}, 4)}
+	return &Performer{failed: map[string]int{}, Limit: 300, Blocked: make(chan struct{}, 4), Pending: make(chan struct{}, 4)}
 }
 
 func (p *Performer) Reset(script func(req *http.Request) *OriginResp) {
@@ -238,6 +241,16 @@ func (p *Performer) Do(req *http.Request) (*http.Response, error) {
 		c.Body = b
 	}
 	p.Contacts = append(p.Contacts, c)
+	if r.Pend {
+		p.mu.Unlock()
+		select {
+		case p.Pending <- struct{}{}:
+		default:
+		}
+		<-req.Context().Done()
+		p.mu.Lock()
+		return nil, req.Context().Err()
+	}
 	h := http.Header{}
 	for _, kv := range r.Header {
 		h.Add(kv[0], kv[1])
@@ -452,6 +465,34 @@ func (w *World) Do(raw []byte, isHead bool) ClientView {
 	conn.SetDeadline(time.Now().Add(20 * time.Second))
 	if _, err := conn.Write(raw); err != nil {
 		return ClientView{Framing: "noresponse"}
+	}
+	all, _ := ioutil.ReadAll(conn)
+	return ParseResponse(all, isHead)
+}
+
+// DoHalfClose sends the request, waits until the destination has taken it (the performer's Pend answer), then shuts down
+// the SENDING side of the connection only (a client that is done writing and waits for the answer) and reads whatever the
+// server still sends. net/http's background read sees the end of the stream and cancels the request's context.
+func (w *World) DoHalfClose(raw []byte, isHead bool) ClientView {
+	for len(w.Perf.Pending) > 0 {
+		<-w.Perf.Pending
+	}
+	conn, err := net.DialTimeout("tcp", w.srv.Listener.Addr().String(), 5*time.Second)
+	if err != nil {
+		return ClientView{Framing: "noresponse"}
+	}
+	defer conn.Close()
+	conn.SetDeadline(time.Now().Add(20 * time.Second))
+	if _, err := conn.Write(raw); err != nil {
+		return ClientView{Framing: "noresponse"}
+	}
+	select {
+	case <-w.Perf.Pending:
+	case <-time.After(3 * time.Second):
+		// the destination was not asked (a hit, an error before routing): the half-close changes nothing
+	}
+	if tc, ok := conn.(*net.TCPConn); ok {
+		tc.CloseWrite()
 	}
 	all, _ := ioutil.ReadAll(conn)
 	return ParseResponse(all, isHead)
